@@ -292,7 +292,9 @@ class Op:
             new_symbol_list.append(symbol)
             new_dof_list.append(dof)
             new_qn_list.append(qn)
-        return Op(" ".join(new_symbol_list), new_dof_list, self.factor, new_qn_list)
+        # `split_symbol` spells "b^\dagger + b" without blanks; restore the spelling of `self.symbol`
+        new_symbol = " ".join(new_symbol_list).replace(r"b^\dagger+b", r"b^\dagger + b")
+        return Op(new_symbol, new_dof_list, self.factor, new_qn_list)
 
     def same_term(self, other) -> bool:
         """
